@@ -52,6 +52,19 @@ Theorem cei_reduction : forall M nc perm,
 Proof. exact Proofs.C1P.cei_reduction. Qed.
 Print Assumptions cei_reduction.
 
+(* heredity: rows dropped, only the distinct columns cols kept *)
+Theorem c1p_hereditary : forall rows nc rows' cols,
+  C1P rows nc -> incl rows' rows -> NoDup cols -> Forall (fun j => j < nc) cols ->
+  C1P (map (select_cols cols) rows') (length cols).
+Proof. exact Proofs.C1P.c1p_hereditary. Qed.
+Print Assumptions c1p_hereditary.
+
+(* a refuted submatrix certifies the negative verdict at any size *)
+Theorem c1p_core_refuted_sound : forall rows nc ridx cols,
+  c1p_core_refuted rows nc ridx cols = true -> c1p_decide rows nc = false.
+Proof. exact Proofs.C1P.c1p_core_refuted_sound. Qed.
+Print Assumptions c1p_core_refuted_sound.
+
 (* ---- witness checkers = defining properties ---- *)
 Theorem ci_check_correct : forall alts ballots order,
   ci_check alts ballots order = true <->
